@@ -249,6 +249,8 @@ type c32Scenario struct {
 	EPipe      bool        `json:"epipe,omitempty"`         // transports fail writes as soon as the peer has closed (net.Pipe semantics)
 	HSTrunc    []hsTrunc   `json:"hs_trunc,omitempty"`      // structure-aware faults: a clear-text handshake message re-framed with a consistent, shorter length
 	Skip       bool        `json:"skip_verify,omitempty"`
+	HSEdits    []hsEdit    `json:"hs_edits,omitempty"` // structure-aware faults: a field inside a clear-text handshake message emptied / overwritten / dropped / repeated, lengths fixed up
+	Inject     []recInject `json:"inject,omitempty"`   // well-framed short records inserted at record boundaries (also in the protected phase)
 	Tape       []int       `json:"tape,omitempty"`
 }
 
@@ -297,6 +299,52 @@ func genC32(seed uint64, tier string) any {
 			sc.EPipe = r.Chance(3, 4)
 			if r.Chance(2, 3) {
 				n = 0
+			}
+		}
+		if r.Chance(1, 3) {
+			if r.Bool() {
+				n = 0
+			}
+			if r.Chance(1, 3) {
+				// make a HelloRetryRequest flow likely: the client's only key share is for a group the server does not accept
+				sc.Client.Curves, sc.Server.Curves = []uint16{29, 23}, []uint16{23}
+				if r.Bool() {
+					sc.Client.Curves, sc.Server.Curves = []uint16{23, 24, 29}, []uint16{29, 24}
+				}
+				sc.Client.MaxVersion, sc.Server.MaxVersion, sc.Client.MinVersion, sc.Server.MinVersion = 0, 0, 0, 0
+			}
+			if len(sc.Client.Curves) == 0 && r.Chance(1, 2) {
+				// pin one (version, suite) pair: every key-exchange method meets the edits
+				pr := c25Pairs[r.Intn(len(c25Pairs))]
+				sc.Client.MinVersion, sc.Client.MaxVersion, sc.Server.MinVersion, sc.Server.MaxVersion = pr[0], pr[0], pr[0], pr[0]
+				sc.Client.Suites, sc.Server.Suites, sc.Client.ForceSuites = []uint16{pr[1]}, []uint16{pr[1]}, true
+				sc.Server.KeyKind = keyForSuite(r, suiteByID[pr[1]], pr[0])
+				sc.Skip = r.Bool()
+			}
+			for k := r.Pick([]int{0, 5, 2}); k > 0; k-- {
+				e := hsEdit{Dir: r.Intn(2), Msg: r.Pick([]int{5, 4, 3, 2, 1}), Op: []string{"empty", "empty", "shrink", "set", "set", "dropext", "dupext"}[r.Intn(7)], Ext: -1, Sel: r.Intn(1 << 10)}
+				if r.Chance(1, 2) {
+					e.Ext = []int{51, 43, 41, 13, 10, 16, 0, 45, 11, 5, 0xff01, 35}[r.Intn(12)]
+				}
+				e.Val = []int{0, 0, 1, 0xff, 0xffff, 0x0304, 0x0303, 7, 0xee, r.Intn(1 << 16)}[r.Intn(10)]
+				sc.HSEdits = append(sc.HSEdits, e)
+			}
+		}
+		if r.Chance(1, 3) {
+			if r.Bool() {
+				n = 0
+			}
+			if r.Chance(2, 3) {
+				// pin one (version, suite) pair so that every record-protection class meets the injected records
+				pr := c25Pairs[r.Intn(len(c25Pairs))]
+				sc.Client.MinVersion, sc.Client.MaxVersion, sc.Server.MinVersion, sc.Server.MaxVersion = pr[0], pr[0], pr[0], pr[0]
+				sc.Client.Suites, sc.Server.Suites, sc.Client.ForceSuites = []uint16{pr[1]}, []uint16{pr[1]}, true
+				sc.Server.KeyKind = keyForSuite(r, suiteByID[pr[1]], pr[0])
+				sc.Client.Curves, sc.Server.Curves = nil, nil
+			}
+			for k := r.Pick([]int{0, 5, 2}); k > 0; k-- {
+				sc.Inject = append(sc.Inject, recInject{Dir: r.Intn(2), At: r.Pick([]int{1, 1, 1, 2, 4, 4, 4, 3, 2, 1, 1, 1}), Type: []int{23, 23, 22, 21, 20, 24, r.Intn(256)}[r.Intn(7)],
+					Len: []int{0, 0, 1, 2, 3, 5, 7, 8, 12, 15, 16, 17, 20, 24, 31, 32, 33, 47, 48, 49, 64}[r.Intn(21)], Seed: r.Intn(1 << 20)})
 			}
 		}
 		kinds := []string{"flip", "flip", "flip", "trunc", "insert", "dup"}
@@ -618,6 +666,8 @@ func execC32(t *testing.T, scAny any, keepLog bool) *Outcome {
 		fired := 0
 		var filters [2]*byteFilter
 		var hsFilters [2]*hsTruncFilter
+		var editFilters [2]*hsEditFilter
+		var injFilters [2]*recInjectFilter
 		if sc.Mode == "corrupt" {
 			streams := [2][]byte{gc2s, gs2c}
 			for d := 0; d < 2; d++ {
@@ -650,8 +700,21 @@ func execC32(t *testing.T, scAny any, keepLog bool) *Outcome {
 				}
 			}
 			hsFilters = hsf
-			cn.SetFilter(chainFilter{hsf[0], filters[0]})
-			sn.SetFilter(chainFilter{hsf[1], filters[1]})
+			for d := 0; d < 2; d++ {
+				editFilters[d], injFilters[d] = &hsEditFilter{}, &recInjectFilter{}
+				for _, e := range sc.HSEdits {
+					if e.Dir == d {
+						editFilters[d].plan = append(editFilters[d].plan, e)
+					}
+				}
+				for _, in := range sc.Inject {
+					if in.Dir == d {
+						injFilters[d].plan = append(injFilters[d].plan, in)
+					}
+				}
+			}
+			cn.SetFilter(chainFilter{chainFilter{hsf[0], editFilters[0]}, chainFilter{filters[0], injFilters[0]}})
+			sn.SetFilter(chainFilter{chainFilter{hsf[1], editFilters[1]}, chainFilter{filters[1], injFilters[1]}})
 			ce := &c32End{conn: tls.Client(cn, ccfg), net: cn, keyUpdate: sc.KeyUpdateBy == 1}
 			se := &c32End{conn: tls.Server(sn, scfg), net: sn, keyUpdate: sc.KeyUpdateBy == 2}
 			ends = []*c32End{ce, se}
@@ -713,6 +776,16 @@ func execC32(t *testing.T, scAny any, keepLog bool) *Outcome {
 			if hsFilters[d] != nil && hsFilters[d].Fired > 0 {
 				o.count("fault.handshake_message_reframed", hsFilters[d].Fired)
 				fired += hsFilters[d].Fired
+			}
+			if editFilters[d] != nil {
+				for _, k := range editFilters[d].Fired {
+					o.count("fault.handshake_field_"+k, 1)
+					fired++
+				}
+			}
+			if injFilters[d] != nil && injFilters[d].Fired > 0 {
+				o.count("fault.record_injected", injFilters[d].Fired)
+				fired += injFilters[d].Fired
 			}
 		}
 		if vsync.LockOps == 0 && okHSPossible {
@@ -821,8 +894,23 @@ func shrinkC32(scAny any) []any {
 		c.Faults = append([]byteFault(nil), sc.Faults...)
 		return &c
 	}
+	for i := range sc.HSEdits {
+		c := cp()
+		c.HSEdits = dropIndex(append([]hsEdit(nil), sc.HSEdits...), i)
+		out = append(out, c)
+	}
+	for i := range sc.Inject {
+		c := cp()
+		c.Inject = dropIndex(append([]recInject(nil), sc.Inject...), i)
+		out = append(out, c)
+	}
+	for i := range sc.HSTrunc {
+		c := cp()
+		c.HSTrunc = dropIndex(append([]hsTrunc(nil), sc.HSTrunc...), i)
+		out = append(out, c)
+	}
 	for i := range sc.Faults {
-		if len(sc.Faults) > 1 {
+		if len(sc.Faults) > 1 || len(sc.HSEdits)+len(sc.Inject)+len(sc.HSTrunc) > 0 {
 			c := cp()
 			c.Faults = dropIndex(c.Faults, i)
 			out = append(out, c)
@@ -867,9 +955,10 @@ func init() {
 		Stub:   []string{"transport", "clock", "entropy", "stub peer in stub mode"},
 		Assume: []string{"a call that returns because its deadline expired has returned"},
 		FaultKinds: []string{"fault.byte_flip", "fault.byte_trunc", "fault.byte_insert", "fault.byte_dup", "fault.stub_kind_0", "fault.stub_kind_1", "fault.stub_kind_2", "fault.stub_kind_3", "fault.stub_stall", "fault.transport_killed", "fault.handshake_message_reframed", "fault.key_update_then_transport_closed",
+			"fault.handshake_field_empty", "fault.handshake_field_shrink", "fault.handshake_field_set", "fault.handshake_field_dropext", "fault.handshake_field_dupext", "fault.record_injected",
 			"net.read_deadline_expired", "probe.partial_log_marshalled", "probe.handshakes_ok_0", "probe.handshakes_ok_1", "probe.handshakes_ok_2"},
 		NotInjected: "no storage or crash-restart; allocation failure has no seam in Go",
 		Gen:         genC32, New: func() any { return &c32Scenario{} }, Exec: execC32, Shrink: shrinkC32,
-		QuickRuns: 16000, ThoroughRuns: 2000000,
+		QuickRuns: 48000, ThoroughRuns: 3000000,
 	})
 }
